@@ -185,7 +185,10 @@ func (c *Chain) Project(ctx sdk.Context) map[string]any {
 	}
 	st["stable"] = map[string]any{"totalValue": is(sp.TotalValue), "depositDenom": a.StablestakeKeeper.GetDepositDenom(ctx),
 		"shareDenom": stablestaketypes.GetShareDenom(), "interestRate": ds(sp.InterestRate), "storedRate": ds(sp.RedemptionRate),
-		"rate": ds(a.StablestakeKeeper.GetRedemptionRate(ctx)), "debts": debts}
+		"rate": ds(a.StablestakeKeeper.GetRedemptionRate(ctx)), "debts": debts,
+		// the parameters of the utilisation rule (strings: governance may set them to huge values)
+		"rateMax": ds(sp.InterestRateMax), "rateMin": ds(sp.InterestRateMin), "rateInc": ds(sp.InterestRateIncrease), "rateDec": ds(sp.InterestRateDecrease),
+		"hgf": ds(sp.HealthGainFactor), "epochLength": fmt.Sprintf("%d", sp.EpochLength)}
 
 	// ---- leveragelp
 	lp := a.LeveragelpKeeper.GetParams(ctx)
